@@ -95,6 +95,10 @@ def connMaskTest (masks : List Nat) (a : Int) : Bool := masks.any fun m => (a / 
 def connLogAppendV2 (a : Int) : Bool := connMaskTest Gen.RecordConsts.legacyStampMasksV2 a
 def connLogAppendV1 (a : Int) : Bool := connMaskTest Gen.RecordConsts.legacyStampMasksV1 a
 
+/-- readHeader: `if attributes&controlBatchMask != 0` — a control batch (transaction marker) is passed over like an empty
+batch: `count = 0`, its payload (`length - 49` bytes) discarded (fix 314fa1c / C02) -/
+def connIsControl (a : Int) : Bool := connMaskTest Gen.RecordConsts.legacyHeaderMasks a
+
 /-- readMessageV2: `if attributes&timestampTypeMask != 0 { timestamp = lastTimestamp }` on every record -/
 def connStampV2 (attributes lastTimestamp : Int) (x : Option (List Rec × Bytes)) : Option (List Rec × Bytes) :=
   match x with
@@ -122,7 +126,13 @@ def connBatchV2 (dec : Int → Bytes → Option Bytes) (bs : Bytes) : Option (Li
             match readFrameBody base epoch body with
             | none => none
             | some f =>
-              if f.count < 0 then none
+              if connIsControl f.attributes then
+                if len - 49 > 0 then
+                  match takeN (len - 49).toNat f.payload with
+                  | none => none
+                  | some (_, rest) => some ([], rest)
+                else some ([], f.payload)
+              else if f.count < 0 then none
               else if connCodecOf f.attributes = 0 then
                 -- f.payload = everything after the header: the records are read from the stream itself
                 connStampV2 f.attributes f.maxTs (connRecordsV2 f.baseOffset f.firstTs f.count.toNat f.payload)
